@@ -51,8 +51,21 @@ type fakeORGB struct {
 	last   *orgbFrame
 	recent []orgbFrame // the last frames (bounded)
 	conns  int
+	open   []net.Conn
 	errs   []string
 	stop   bool
+}
+
+// kill: the server dies - the listener and every established connection are closed (the client's next request fails)
+func (s *fakeORGB) kill() {
+	s.ln.Close()
+	s.mu.Lock()
+	s.stop = true
+	for _, c := range s.open {
+		c.Close()
+	}
+	s.open = nil
+	s.mu.Unlock()
 }
 
 func orgbString(s string) []byte {
@@ -112,6 +125,7 @@ func startFakeORGB(names []string, ctrlName string) (*fakeORGB, error) {
 			}
 			s.mu.Lock()
 			s.conns++
+			s.open = append(s.open, c)
 			s.mu.Unlock()
 			go s.serve(c)
 		}
@@ -218,8 +232,8 @@ func (s *fakeORGB) waitFrame(after int, pred func(*orgbFrame) bool, timeout time
 				}
 			}
 		}
-		if time.Now().After(deadline) {
-			return nil
+		if time.Now().After(deadline) || s.stop {
+			return nil // (a stopped server receives no further frames, and its periodic waker has ended)
 		}
 		s.cond.Wait()
 	}
